@@ -314,16 +314,86 @@ let run_types line =
       let rec fty () =
         match next () with
         | "fun" -> let k = nexti () in let ps = List.init k (fun _ -> ptype_of (next ())) in let rf = rtype_of (next ()) in TFun (ps, rf)
-        | "mem" -> let oc = b_of (next ()) in let mc = b_of (next ()) in
-            let k = nexti () in let ps = List.init k (fun _ -> ptype_of (next ())) in let rf = rtype_of (next ()) in TMemBound (oc, mc, ps, rf)
+        | "mem" ->
+            let rel = (match nexti () with 0 -> RSame | 1 -> RMethInBase | 2 -> RMethInDerived | _ -> RUnrelated) in
+            let oc = b_of (next ()) in let mc = b_of (next ()) in
+            let k = nexti () in let ps = List.init k (fun _ -> ptype_of (next ())) in let rf = rtype_of (next ()) in TMemBound (rel, oc, mc, ps, rf)
         | "bind" -> let v = base_of_code (next ()) in let f = fty () in TBindLast (f, v)
         | "hide" -> let f = fty () in THideLast f
         | "hr" -> let f = fty () in THideReturn f
         | "retype" -> let f = fty () in TRetype f
         | t -> raise (Parse ("functor " ^ t)) in
       let f = fty () in
-      Printf.sprintf "lib=%d direct=%d" (if lib_accepts gen_hop_modes sg r f then 1 else 0) (if direct_ok sg r f then 1 else 0)
+      Printf.sprintf "lib=%d direct=%d" (if lib_accepts gen_hop_modes gen_memfun_pass sg r f then 1 else 0) (if direct_ok sg r f then 1 else 0)
   | t -> raise (Parse ("types " ^ t))
+
+
+(* ---------------------------------------------------------------------------------------- *)
+(* nested-slot programs: ops separated by ';' (see harness/nest.h); after every op the observation *)
+let run_nest line =
+  let b = Buffer.create 256 in
+  let probe st =
+    let (vs, ts) = observe st in
+    let vs = List.sort compare (List.map (fun (k, o) -> (int_of_n k, o)) vs) in
+    let ts = List.sort compare (List.map (fun (k, o) -> (int_of_n k, o)) ts) in
+    Buffer.add_string b "{";
+    List.iter (fun (k, o) ->
+      Buffer.add_string b (Printf.sprintf "s%d:%s " k (match o with
+        | VDead -> "x" | VNull -> "n"
+        | VInvalid hp -> if hp then "i+" else "i"
+        | VValid hp -> if hp then "v+" else "v"))) vs;
+    Buffer.add_string b "|";
+    List.iter (fun (k, o) ->
+      Buffer.add_string b (Printf.sprintf "t%d:%s " k (match o with None -> "x" | Some c -> string_of_int (int_of_n c)))) ts;
+    Buffer.add_string b "} " in
+  let parse_op txt =
+    let toks = List.filter (fun s -> s <> "") (String.split_on_char ' ' txt) in
+    match toks with
+    | [] -> None
+    | "tnew" :: [a] -> Some (NTNew (n_of_int (int_of_string a)))
+    | "tdel" :: [a] -> Some (NTDel (n_of_int (int_of_string a)))
+    | "sempty" :: [a] -> Some (NSEmpty (n_of_int (int_of_string a)))
+    | "snew" :: a :: _n :: rest ->
+        let rec items = function
+          | [] -> []
+          | k :: id :: tl ->
+              let i = n_of_int (int_of_string id) in
+              (match k with "t" -> NPTrack i | "r" -> NPRef i | "v" -> NPVal i | x -> raise (Parse ("item " ^ x))) :: items tl
+          | _ -> raise (Parse "snew items") in
+        Some (NSNew (n_of_int (int_of_string a), items rest))
+    | "scopy" :: [a; c] -> Some (NSCopy (n_of_int (int_of_string a), n_of_int (int_of_string c)))
+    | "smove" :: [a; c] -> Some (NSMove (n_of_int (int_of_string a), n_of_int (int_of_string c)))
+    | "sasg" :: [a; c] -> Some (NSAssign (n_of_int (int_of_string a), n_of_int (int_of_string c)))
+    | "smasg" :: [a; c] -> Some (NSMoveAssign (n_of_int (int_of_string a), n_of_int (int_of_string c)))
+    | "sdisc" :: [a] -> Some (NSDisc (n_of_int (int_of_string a)))
+    | "sdel" :: [a] -> Some (NSDel (n_of_int (int_of_string a)))
+    | "sq" :: [a] -> Some (NSQuery (n_of_int (int_of_string a)))
+    | t :: _ -> raise (Parse ("nest op " ^ t)) in
+  let st = ref nst0 in
+  let failed = ref false in
+  List.iter (fun txt ->
+    if not !failed then
+      match parse_op txt with
+      | None -> ()
+      | Some o when not (user_ok o !st) ->
+          (* the program destroys a slot variable some functor still refers to through std::ref *)
+          failed := true; Buffer.add_string b "USER-RULE"
+      | Some o ->
+          let before = List.length (!st).ntrace in
+          (match nstep o !st with
+           | NErr e ->
+               failed := true;
+               Buffer.add_string b (match e with NErrUAF -> "ERR UAF" | NErrLoop -> "ERR LOOP" | NErrUnsupported -> "ERR UNSUPPORTED")
+           | NOk st' ->
+               let evs = List.rev (List.filteri (fun i _ -> i < List.length st'.ntrace - before) st'.ntrace) in
+               List.iter (fun e -> Buffer.add_string b (match e with
+                 | NSkip -> "- "
+                 | NQ (hr, em) -> Printf.sprintf "q%s%s " (sb hr) (sb em))) evs;
+               st := st';
+               probe st'))
+    (String.split_on_char ';' line);
+  if not !failed then Buffer.add_string b "live=0 leak=0";
+  Buffer.contents b
 
 exception Timeout
 
@@ -348,6 +418,7 @@ let () =
             | "track" -> run_track line
             | "expr" -> run_expr line
             | "types" -> run_types line
+            | "nest" -> run_nest line
             | _ -> run_sig fuel line) "ERR TIMEOUT"
         with Parse m -> "PARSE-ERROR " ^ m
            | Failure m -> "PARSE-ERROR " ^ m
